@@ -564,10 +564,10 @@ open PdshVerif.Opt.Wcoll (LineMode FS)
 /-- what the whole command line means: every target word expanded (C01's `expand₂`, two bracket levels), the words
     of `^files` standing where the file stands (includes inlined), WCOLL's file when no option names a target —
     minus every name an exclusion word or exclusion file denotes, filtered by every regex -/
-def meant (mode : LineMode) (fs : FS) (rematch : List Char → List Char → Option Bool) (badre : List Char → Bool)
+def meant (mode : LineMode) (fs : FS) (stdin : List Char) (rematch : List Char → List Char → Option Bool) (badre : List Char → Bool)
     (segs : List Seg) (wenv : Option (List Char × List Spec.Word)) : List (List Char) :=
   ((Spec.expand₂ (tgtWords segs wenv)).filter fun h => !(segs.flatMap Seg.xnames).contains h).filter
-    (keepAll (envOf mode fs rematch badre segs wenv) (segs.flatMap Seg.reg))
+    (keepAll (envOf mode fs stdin rematch badre segs wenv) (segs.flatMap Seg.reg))
 
 /-- THE WHOLE CHAIN.  Starting from the CONTENTS of the files (`fs`; comments, blank lines and `#include`s read by
     C10's model of wcoll.c), the TEXT of the option words (`segs.map Seg.text`: target words with one or two
@@ -579,21 +579,21 @@ def meant (mode : LineMode) (fs : FS) (rematch : List Char → List Char → Opt
         connect is started for are targets no exclusion names and every filter passes, no list position twice —
         and exactly the list once `dsh()` has returned. -/
 theorem file_contents_to_contacted (cfg : Cfg) (hD1 : cfg.fixDeleteAll = true) (hD17 : cfg.fixIterSuffix = true)
-    (hD19 : cfg.fixRemoveDepth = true) (h2Br : cfg.fix2Br = true) (mode : LineMode) (fs : FS)
+    (hD19 : cfg.fixRemoveDepth = true) (h2Br : cfg.fix2Br = true) (mode : LineMode) (fs : FS) (stdin : List Char)
     (rematch : List Char → List Char → Option Bool) (badre : List Char → Bool) (segs : List Seg)
     (wenv : Option (List Char × List Spec.Word))
-    (hdom : targetDomain cfg mode fs rematch badre segs wenv = true)
+    (hdom : targetDomain cfg mode fs stdin rematch badre segs wenv = true)
     (v : Dsh.Fan.Variant) (f : Nat) (ls : List Dsh.Fan.Label) (s : Dsh.Fan.St)
-    (he : Dsh.Fan.Exec (Dsh.Fan.init v f (meant mode fs rematch badre segs wenv).length) ls s) :
-    targetList cfg (envOf mode fs rematch badre segs wenv) (wenv.map (·.1)) (segs.map Seg.text) =
-      .ok (meant mode fs rematch badre segs wenv) ∧
-    (∀ h ∈ contacted (meant mode fs rematch badre segs wenv) ls,
+    (he : Dsh.Fan.Exec (Dsh.Fan.init v f (meant mode fs stdin rematch badre segs wenv).length) ls s) :
+    targetList cfg (envOf mode fs stdin rematch badre segs wenv) (wenv.map (·.1)) (segs.map Seg.text) =
+      .ok (meant mode fs stdin rematch badre segs wenv) ∧
+    (∀ h ∈ contacted (meant mode fs stdin rematch badre segs wenv) ls,
       h ∈ Spec.expand₂ (tgtWords segs wenv) ∧ h ∉ segs.flatMap Seg.xnames ∧
-      keepAll (envOf mode fs rematch badre segs wenv) (segs.flatMap Seg.reg) h = true) ∧
+      keepAll (envOf mode fs stdin rematch badre segs wenv) (segs.flatMap Seg.reg) h = true) ∧
     (started ls).Nodup ∧
-    (Dsh.Fan.Final s → (contacted (meant mode fs rematch badre segs wenv) ls).Perm
-      (meant mode fs rematch badre segs wenv)) := by
-  refine ⟨PdshVerif.Props.C10.target_list_end_to_end cfg hD1 hD17 hD19 h2Br mode fs rematch badre segs wenv hdom,
+    (Dsh.Fan.Final s → (contacted (meant mode fs stdin rematch badre segs wenv) ls).Perm
+      (meant mode fs stdin rematch badre segs wenv)) := by
+  refine ⟨PdshVerif.Props.C10.target_list_end_to_end cfg hD1 hD17 hD19 h2Br mode fs stdin rematch badre segs wenv hdom,
     fun h hm => ?_, (started_nodup_lt he).1, fun hf => contacted_perm _ he hf⟩
   have := contacted_mem _ ls h hm
   unfold meant at this
@@ -607,9 +607,9 @@ theorem file_contents_to_contacted (cfg : Cfg) (hD1 : cfg.fixDeleteAll = true) (
 /-- non-vacuity: C10's site (a target file with an include, a two-bracket word, an exclusion file with the same
     include, a drop filter) is in the domain and means five hosts — the hypotheses can be met, and the list is
     obtained THROUGH the theorem -/
-example : targetDomain Cfg.repaired .whole PdshVerif.Props.C10.siteFS PdshVerif.Props.C10.siteMatch (fun _ => false)
+example : targetDomain Cfg.repaired .whole PdshVerif.Props.C10.siteFS [] PdshVerif.Props.C10.siteMatch (fun _ => false)
       PdshVerif.Props.C10.siteSegs none = true ∧
-    meant .whole PdshVerif.Props.C10.siteFS PdshVerif.Props.C10.siteMatch (fun _ => false)
+    meant .whole PdshVerif.Props.C10.siteFS [] PdshVerif.Props.C10.siteMatch (fun _ => false)
       PdshVerif.Props.C10.siteSegs none =
     ["n1".toList, "n2".toList, "r1n1".toList, "r2n1".toList, "r2n2".toList] := by
   constructor <;> decide
